@@ -43,3 +43,104 @@ M('c09e-consumed-returns-consume-offset', 'C09', 'break', RS,
 M('c09e-track-after-tunnel-return', 'C09', 'break', RS,
   '    htp_conn_track_outbound_data(connp->conn, len, timestamp);\n\n    // Return without processing any data if the stream is in tunneling\n    // mode (which it would be after an initial CONNECT transaction.\n    if (connp->out_status == HTP_STREAM_TUNNEL) {',
   '    if (connp->out_status != HTP_STREAM_TUNNEL) htp_conn_track_outbound_data(connp->conn, len, timestamp);\n\n    if (connp->out_status == HTP_STREAM_TUNNEL) {', 'C09.e')
+
+# ---------------- C16
+M('c16a-delete-post-dispatch-tunnel-test', 'C16', 'break', RQ,
+  '            if (connp->in_status == HTP_STREAM_TUNNEL) {\n                #ifdef HTP_DEBUG\n                fprintf(stderr, "htp_connp_req_data: returning HTP_STREAM_TUNNEL\\n");\n                #endif\n\n                return HTP_STREAM_TUNNEL;\n            }\n\n            rc = htp_req_handle_state_change(connp);',
+  '            rc = htp_req_handle_state_change(connp);', 'C16.a')
+M('c16a-entry-test-after-loop-start', 'C16', 'break', RS,
+  '    if (connp->out_status == HTP_STREAM_TUNNEL) {\n        #ifdef HTP_DEBUG\n        fprintf(stderr, "htp_connp_res_data: returning HTP_STREAM_TUNNEL\\n");\n        #endif\n\n        return HTP_STREAM_TUNNEL;\n    }\n\n    // Invoke a processor',
+  '    if (connp->out_status == HTP_STREAM_TUNNEL && len > 1) {\n        return HTP_STREAM_TUNNEL;\n    }\n\n    // Invoke a processor', 'C16.a')
+M('c16b-probe-forgets-out-status', 'C16', 'break', RQ,
+  '        connp->in_status = HTP_STREAM_TUNNEL;\n        connp->out_status = HTP_STREAM_TUNNEL;\n    }',
+  '        connp->in_status = HTP_STREAM_TUNNEL;\n    }', 'C16.b')
+M('c16b-101-forgets-in-status', 'C16', 'break', RS,
+  '            if (connp->in_status != HTP_STREAM_ERROR)\n                connp->in_status = HTP_STREAM_TUNNEL;\n            connp->out_status = HTP_STREAM_TUNNEL;',
+  '            connp->out_status = HTP_STREAM_TUNNEL;', 'C16.b')
+M('c16b-101-with-cl-tunnels', 'C16', 'break', RS,
+  '        if (te == NULL && cl == NULL) {\n            connp->out_state = htp_connp_RES_FINALIZE;\n\n            if (connp->in_status != HTP_STREAM_ERROR)\n                connp->in_status = HTP_STREAM_TUNNEL;',
+  '        if (te == NULL) {\n            connp->out_state = htp_connp_RES_FINALIZE;\n\n            if (connp->in_status != HTP_STREAM_ERROR)\n                connp->in_status = HTP_STREAM_TUNNEL;', 'C16.b')
+M('c16c-wait-consumes', 'C16', 'break', RQ,
+  '    if (connp->in_tx->response_progress <= HTP_RESPONSE_LINE) {\n        return HTP_DATA_OTHER;',
+  '    if (connp->in_tx->response_progress <= HTP_RESPONSE_LINE) {\n        connp->in_current_read_offset = connp->in_current_len;\n        return HTP_DATA_OTHER;', 'C16.c')
+M('c16c-wait-threshold', 'C16', 'break', RQ,
+  '    if (connp->in_tx->response_progress <= HTP_RESPONSE_LINE) {',
+  '    if (connp->in_tx->response_progress < HTP_RESPONSE_LINE) {', 'C16.c')
+M('c16c-probe-clears-buffer', 'C16', 'break', RQ,
+  '    // not calling htp_connp_req_clear_buffer, we\'re not consuming the data\n',
+  '    htp_connp_req_clear_buffer(connp);\n', 'C16.c')
+M('c16c-2xx-range', 'C16', 'break', RQ,
+  '    if ((connp->in_tx->response_status_number >= 200) && (connp->in_tx->response_status_number <= 299)) {\n        // TODO Check',
+  '    if ((connp->in_tx->response_status_number >= 200) && (connp->in_tx->response_status_number <= 399)) {\n        // TODO Check', 'C16.c')
+M('c16d-flag-not-cleared', 'C16', 'break', TX,
+  '            tx->connp->out_data_other_at_tx_end = 0;\n            return HTP_DATA_OTHER;',
+  '            return HTP_DATA_OTHER;', 'C16.d')
+M('c16d-yield-without-intx-test', 'C16', 'break', TX,
+  '        if ((tx->connp->in_status == HTP_STREAM_DATA_OTHER) && (tx->connp->in_tx == tx->connp->out_tx)) {',
+  '        if ((tx->connp->in_status == HTP_STREAM_DATA_OTHER)) {', 'C16.d')
+M('c16d-flag-set-for-407', 'C16', 'break', RS,
+  '            if (connp->in_status != HTP_STREAM_ERROR)\n                connp->in_status = HTP_STREAM_DATA;\n        } else {',
+  '            if (connp->in_status != HTP_STREAM_ERROR)\n                connp->in_status = HTP_STREAM_DATA;\n            connp->out_data_other_at_tx_end = 1;\n        } else {', 'C16.d')
+M('c16d-keep-negated', 'C16', 'keep', TX,
+  '    if (!hybrid_mode) {\n        // Check if the inbound parser is waiting on us.',
+  '    if (hybrid_mode == 0) {\n        // Check if the inbound parser is waiting on us.')
+
+# ---------------- C05
+M('c05a-drop-not-complete-guard', 'C05', 'break', TX,
+  '    if (tx->request_progress != HTP_REQUEST_COMPLETE) {\n        htp_status_t rc = htp_tx_state_request_complete_partial(tx);\n        if (rc != HTP_OK) return rc;\n    }',
+  '    {\n        htp_status_t rc = htp_tx_state_request_complete_partial(tx);\n        if (rc != HTP_OK) return rc;\n    }', 'C05.a')
+M('c05a-hook-before-progress', 'C05', 'break', TX,
+  '        tx->response_progress = HTP_RESPONSE_COMPLETE;\n\n        // Run the last RESPONSE_BODY_DATA HOOK, but only if there was a response body present.',
+  '        // Run the last RESPONSE_BODY_DATA HOOK, but only if there was a response body present.', 'C05.a')
+M('c05a-is-complete-or', 'C05', 'break', TX,
+  '    if ((tx->request_progress != HTP_REQUEST_COMPLETE) || (tx->response_progress != HTP_RESPONSE_COMPLETE)) {',
+  '    if ((tx->request_progress != HTP_REQUEST_COMPLETE) && (tx->response_progress != HTP_RESPONSE_COMPLETE)) {', 'C05.a')
+M('c05a-finalize-without-test', 'C05', 'break', TX,
+  '    if (!htp_tx_is_complete(tx)) return HTP_OK;\n\n    // Run hook TRANSACTION_COMPLETE.',
+  '    if (tx->response_progress != HTP_RESPONSE_COMPLETE) return HTP_OK;\n\n    // Run hook TRANSACTION_COMPLETE.', 'C05.a')
+M('c05a-keep-swap-arms', 'C05', 'keep', TX,
+  '    if (tx->request_progress != HTP_REQUEST_COMPLETE) {\n        htp_status_t rc = htp_tx_state_request_complete_partial(tx);\n        if (rc != HTP_OK) return rc;\n    }',
+  '    if (tx->request_progress == HTP_REQUEST_COMPLETE) {\n    } else {\n        htp_status_t rc = htp_tx_state_request_complete_partial(tx);\n        if (rc != HTP_OK) return rc;\n    }')
+M('c05b-early-ok-before-detach', 'C05', 'break', TX,
+  '    // Make a copy of the connection parser pointer, so that\n    // we don\'t have to reference it via tx, which may be\n    // destroyed later.\n    htp_connp_t *connp = tx->connp;\n\n    // Determine what happens next, and remove this transaction from the parser.',
+  '    if (tx->request_ignored_lines > 3) return HTP_OK;\n    htp_connp_t *connp = tx->connp;\n\n    // Determine what happens next, and remove this transaction from the parser.', 'C05.b')
+M('c05b-response-forgets-idle', 'C05', 'break', TX,
+  '    connp->out_tx = NULL;\n\n    connp->out_state = htp_connp_RES_IDLE;',
+  '    connp->out_tx = NULL;\n    if (hybrid_mode) connp->out_state = htp_connp_RES_IDLE;', 'C05.b')
+M('c05d-progress-decrement', 'C05', 'break', RQ,
+  '            connp->in_tx->request_progress = HTP_REQUEST_BODY;\n            break;\n\n        case HTP_CODING_IDENTITY:',
+  '            connp->in_tx->request_progress--;\n            break;\n\n        case HTP_CODING_IDENTITY:', 'C05.d')
+M('c05d-restart-outside-100', 'C05', 'break', RS,
+  '    if (connp->out_tx->response_status_number == 100 && te == NULL) {',
+  '    if (connp->out_tx->response_status_number <= 100 && te == NULL) {', 'C05.d')
+
+# ---------------- C04
+CP = 'htp/htp_connection_parser.c'
+M('c04b-no-increment-unmatched', 'C04', 'break', RS,
+  '        // We\'ve used one transaction\n        connp->out_next_tx_index++;\n    } else {',
+  '    } else {', 'C04.b')
+M('c04b-no-decrement-on-shift', 'C04', 'break', CP,
+  '        r++;\n        connp->out_next_tx_index--;', '        r++;', 'C04.b')
+M('c04b-extra-writer', 'C04', 'break', CP,
+  '    connp->in_chunk_request_index = connp->in_chunk_count;\n}',
+  '    connp->in_chunk_request_index = connp->in_chunk_count;\n    if (connp->out_next_tx_index > 1000) connp->out_next_tx_index = 0;\n}', 'C04.b')
+M('c04b-keep-hoist-increment', 'C04', 'keep', RS,
+  '        // We\'ve used one transaction\n        connp->out_next_tx_index++;\n    } else {\n        // We\'ve used one transaction\n        connp->out_next_tx_index++;\n',
+  '    } else {\n', edits=[(RS, '        // We\'ve used one transaction\n        connp->out_next_tx_index++;\n    } else {\n        // We\'ve used one transaction\n        connp->out_next_tx_index++;\n', '    } else {\n'),
+                          (RS, '    htp_status_t rc = htp_tx_state_response_start(connp->out_tx);\n    if (rc != HTP_OK) return rc;\n\n    return HTP_OK;\n}\n\nint htp_connp_res_data', '    connp->out_next_tx_index++;\n    htp_status_t rc = htp_tx_state_response_start(connp->out_tx);\n    if (rc != HTP_OK) return rc;\n\n    return HTP_OK;\n}\n\nint htp_connp_res_data')])
+M('c04c-get-after-increment', 'C04', 'break', RS,
+  '    connp->out_tx = htp_list_get(connp->conn->transactions, connp->out_next_tx_index);\n    if (connp->out_tx == NULL) {',
+  '    connp->out_tx = htp_list_get(connp->conn->transactions, connp->out_next_tx_index + (connp->out_next_tx_index > 64));\n    if (connp->out_tx == NULL) {', 'C04.c')
+M('c04a-shift-live-tx', 'C04', 'break', CP,
+  '        if (tx != NULL) {\n            break;\n        }\n        htp_list_shift',
+  '        if (tx != NULL && i > 2) {\n            break;\n        }\n        htp_list_shift', 'C04.a')
+M('c04a-index-after-push', 'C04', 'break', TX,
+  '    tx->index = htp_list_size(tx->conn->transactions);\n    tx->cfg = connp->cfg;',
+  '    tx->index = htp_list_size(tx->conn->transactions) + connp->in_chunk_count % 2 * 0 + (connp->conn->flags & 1);\n    tx->cfg = connp->cfg;', 'C04.a')
+M('c04d-pipelined-ge', 'C04', 'break', CP,
+  '    if (htp_list_size(connp->conn->transactions) > connp->out_next_tx_index) {',
+  '    if (htp_list_size(connp->conn->transactions) > connp->out_next_tx_index + 1) {', 'C04.d')
+M('c04d-pipelined-after-create', 'C04', 'break', CP,
+  '    // Detect pipelining.\n    if (htp_list_size(connp->conn->transactions) > connp->out_next_tx_index) {\n        connp->conn->flags |= HTP_CONN_PIPELINED;\n    }\n',
+  '', 'C04.d', edits=[(CP, '    // Detect pipelining.\n    if (htp_list_size(connp->conn->transactions) > connp->out_next_tx_index) {\n        connp->conn->flags |= HTP_CONN_PIPELINED;\n    }\n', ''),
+                      (CP, '    connp->in_tx = tx;   \n', '    connp->in_tx = tx;   \n    if (htp_list_size(connp->conn->transactions) > connp->out_next_tx_index) {\n        connp->conn->flags |= HTP_CONN_PIPELINED;\n    }\n')])
